@@ -130,7 +130,8 @@ func Criteria() Spec {
 		fix(dateCrit("years=1", KM, A, &baskettypes.DateCriteria{YearsInThePast: 1})), // curator is not the authority
 		fix(Next(time.Second)),
 		fix(Next(24*time.Hour)),
-		fix(Next(366*24*time.Hour)), // 2024 is a leap year: lands on 2025-01-01
+		fix(Next(366*24*time.Hour)),             // 2024 is a leap year: lands on 2025-01-01
+		fix(Next(366*24*time.Hour-time.Second)), // 2024-12-31T23:59:59 from T0: the last second of the year
 	)
 	exp := map[string]bool{}
 	for _, e := range evs {
